@@ -199,6 +199,16 @@ func (e *Env) lenOf(v Val) string {
 		if arr, ok := isArrayT(v.T); ok {
 			return numI(arr.Len())
 		}
+		if mt, ok := v.T.Underlying().(*types.Map); ok {
+			// len of a map: the same term the code's len(m) gets (mapcard of its key set; 0 for nil)
+			vc := e.vc
+			dom, _, _ := vc.mapHeap(mt)
+			d := vc.heapGet(e.st, dom, "(Array Int (Array Int Bool))")
+			vc.declareFun("mapcard", []string{"(Array Int Bool)"}, "Int")
+			vc.axiom("mapcard", "(forall ((s (Array Int Bool)) (k Int)) (! (and (>= (mapcard s) 0) (=> (= (mapcard s) 0) (not (select s k)))) :pattern ((mapcard s) (select s k))))")
+			vc.axiom("mapcard2", "(forall ((s (Array Int Bool)) (k Int)) (! (> (mapcard (store s k true)) 0) :pattern ((mapcard (store s k true)))))")
+			return Ite(Eq(v.S, "0"), "0", app("mapcard", Sel(d, v.S)))
+		}
 	}
 	panic(specErr("%s: len of a value that is neither slice nor string", e.what))
 }
